@@ -34,11 +34,13 @@ impl<'a> HelpRequest<'a> {
         else if {
             let mut __found = false;
             loop {
+//@ invariant_except_break
+//@     !__found,
+//@     forall|i: int| 0 <= i < items.len() - args.view().len() ==> !(#[trigger] items[i] == ArgItem::Long(help_word()) || items[i] == ArgItem::Short('h')),
 //@ invariant
 //@     args.view().len() <= items.len(),
 //@     args.view() == items.skip(items.len() - args.view().len()),
-//@     !__found,
-//@     forall|i: int| 0 <= i < items.len() - args.view().len() ==> !(#[trigger] items[i] == ArgItem::Long(help_word()) || items[i] == ArgItem::Short('h')),
+//@     "help".spec_bytes() == help_word(),
 //@ ensures
 //@     __found == (exists|i: int| 0 <= i < items.len() && (#[trigger] items[i] == ArgItem::Long(help_word()) || items[i] == ArgItem::Short('h'))),
 //@ decreases args.view().len(),
@@ -49,6 +51,7 @@ impl<'a> HelpRequest<'a> {
                         if arg == Arg::LongOption("help") || arg == Arg::ShortOption('h') {
                             __found = true;
 //@ proof {
+//@     broadcast use lemma_str_view_bytes;
 //@     let k = items.len() - before.len();
 //@     assert(before[0] == items[k]);
 //@     assert(items[k] == ArgItem::Long(help_word()) || items[k] == ArgItem::Short('h'));
@@ -56,8 +59,10 @@ impl<'a> HelpRequest<'a> {
                             break;
                         }
 //@ proof {
+//@     broadcast use lemma_str_view_bytes;
 //@     let k = items.len() - before.len();
 //@     assert(before[0] == items[k]);
+//@     assert(!(items[k] == ArgItem::Long(help_word()) || items[k] == ArgItem::Short('h')));
 //@     assert(args.view() =~= items.skip(items.len() - args.view().len())) by {
 //@         assert(before.drop_first() =~= items.skip(k + 1));
 //@     }
